@@ -76,6 +76,10 @@ theorem tcp_print_parse (s : TcpSig) (h : WFTcp s) : parseTcpSigFull (printTcpSi
 example : WFTcp ⟨.v4, .distance 64 3, 0, some 1460, .mss 20, some 7, [.mss, .eol 2, .unknown 77], [.df, .nonZeroID], .zero⟩ ∧
     WFTcp ⟨.any, .bad 255, 255, none, .any, none, [], [], .any⟩ := by decide
 
+/-- a printed TCP signature contains no whitespace at all, so it can be written after `sig = ` as it is:
+the `LineSafe` condition of `WFDoc` is automatic for TCP signature lines -/
+theorem tcp_print_line_safe (s : TcpSig) : LineSafe (printTcpSig s) := lineSafe_printTcpSig s
+
 /-! ### HTTP signatures -/
 
 /-- The full statement of the property for HTTP signatures: every value over the vocabulary
